@@ -1,5 +1,9 @@
 """C01 — exit 0 implies every copied regular file is byte-identical."""
+import os
+import shutil
+
 import datapath
+import xcp
 from datapath import Case
 
 B = 4096
@@ -120,6 +124,67 @@ def run(ctx, out):
                 "{1,2,3,7,512,4095,4096,4097,1MB,usize::MAX via --no-progress}, dense and sparse layouts (leading/trailing/"
                 "interleaved/empty, >32 extents, regions preallocated with fallocate and written without a sync), prior destination absent/shorter/longer/same, both drivers, workers "
                 "1..16, reflink auto/never, plus scaled kernel request caps and runs in which one data call fails (EIO / ENOSPC at the "
-                "n-th kernel copy or user-space write, with and without --no-progress): exit 0 still means identical; non-trivial = non-empty file with >=2 "
+                "n-th kernel copy or user-space write, with and without --no-progress): exit 0 still means identical; plus several "
+                "sources in one invocation (directories with and without -T, files, with equal and distinct relative names): every "
+                "selected file at ITS mapped destination; non-trivial = non-empty file with >=2 "
                 "transfers, or sparse, or overwriting, or a capped kernel; distinct = distinct case tuple")
     datapath.run_cases(ctx, out, gen(ctx), "C01", oracle, nontrivial)
+    run_several_sources(ctx, out)
+
+
+def run_several_sources(ctx, out):
+    """"every regular file selected for copying exists at its MAPPED destination": with several sources in one invocation
+    each file has its own mapped destination under cp's rule (dest/basename/.., or dest/.. with -T); when two selected
+    files map to ONE destination path the invocation cannot be honoured — exit 0 would promise both"""
+    rng = ctx.rng
+    quick = ctx.tier == "quick"
+    d0 = ctx.work.fresh("c01multi")
+    k = 0
+    for driver in ("parfile", "parblock"):
+        for shape in ("dirs-T-same-names", "dirs-same-names", "dirs-T-distinct", "files-same-basename", "files-distinct", "dir-and-file"):
+            for w in ((1, 4) if not quick else (rng.choice([1, 4]),)):
+                k += 1
+                d = os.path.join(d0, "m%d" % k)
+                os.makedirs(os.path.join(d, "dest"))
+                mk = lambda rel, n, tag: (os.makedirs(os.path.dirname(os.path.join(d, rel)), exist_ok=True),
+                                           open(os.path.join(d, rel), "wb").write(bytes([tag]) * n))
+                if shape.startswith("dirs"):
+                    mk("a/f", 3 * (1 << 20) + 1, 65); mk("a/sub/g", 5000, 66); mk("a/only_a", 100, 67)
+                    if "distinct" in shape:
+                        mk("b/h", 1 << 20, 68); mk("b/sub/i", 7000, 69)
+                    else:
+                        mk("b/f", 1 << 20, 68); mk("b/sub/g", 7000, 69); mk("b/only_b", 50, 70)
+                    srcs = ["a", "b"]
+                    flags = ["-r"] + (["-T"] if "-T" in shape else [])
+                elif shape == "files-same-basename":
+                    mk("p/x.bin", 70000, 71); mk("q/x.bin", 30000, 72)
+                    srcs, flags = ["p/x.bin", "q/x.bin"], []
+                elif shape == "files-distinct":
+                    mk("p/x.bin", 70000, 71); mk("q/y.bin", 30000, 72)
+                    srcs, flags = ["p/x.bin", "q/y.bin"], []
+                else:
+                    mk("a/f", 200000, 65); mk("f", 100, 73)
+                    srcs, flags = ["a", "f"], ["-r"]
+                argv = [ctx.bins["xcp"], "--driver", driver, "-w", str(w), "--block-size", "65536"] + flags + srcs + ["dest"]
+                r = xcp.run_plain(argv, d)
+                out.case(("several-sources", shape, driver, w), True)
+                out.count("several_sources_" + shape)
+                rep = dict(argv=argv[1:], shape=shape, exit=r.exit, stderr=r.stderr[-300:])
+                if r.exit == 0:
+                    bad = None
+                    for sarg in srcs:
+                        sp = os.path.join(d, sarg)
+                        base = os.path.join(d, "dest") if "-T" in flags else os.path.join(d, "dest", os.path.basename(sarg))
+                        files = [(sp, base)] if os.path.isfile(sp) else \
+                            [(os.path.join(r0, f), os.path.join(base, os.path.relpath(os.path.join(r0, f), sp))) for r0, _, fs in os.walk(sp) for f in fs]
+                        for (a, b) in files:
+                            if not datapath.files_equal(a, b):
+                                bad = "exit 0 but %s (the mapped destination of %s) %s" % (
+                                    os.path.relpath(b, d), os.path.relpath(a, d),
+                                    "is missing" if not os.path.exists(b) else "differs from it (length %d vs %d)" % (os.path.getsize(b), os.path.getsize(a)))
+                                break
+                        if bad:
+                            break
+                    if bad:
+                        out.violation(bad, rep)
+                shutil.rmtree(d, ignore_errors=True)
